@@ -96,6 +96,13 @@ fn cursors_for(rng: &mut Rng, input: &str) -> Vec<u32> {
 
 fn check_one(out: &mut CaseOut, input: &str, cfg: &Cfg, cursors: &[u32], what: &str) {
     out.evals += 1;
+    if let Some(path) = std::env::var_os("VERIF_TRACE_INPUTS") {
+        // debugging aid for hangs: the last line of the file is the call that did not return
+        use std::io::Write;
+        if let Ok(mut f) = std::fs::OpenOptions::new().create(true).append(true).open(path) {
+            let _ = writeln!(f, "{}", json!({"input": input, "cfg": cfg.short(), "cursors": cursors, "what": what}));
+        }
+    }
     let c0 = exec::thread_cpu_ms();
     let obs = exec::format_obs(cfg, input, cursors, exec::step_budget(input.len()));
     let cpu_ms = exec::thread_cpu_ms() - c0;
